@@ -70,6 +70,7 @@ def run(ctx, rep):
     rep.section(r1, ctx, rep, prog)
     rep.section(r2, ctx, rep)
     rep.section(r2_never_constructed, ctx, rep, prog)
+    rep.section(r6_const_value, ctx, rep, prog)
     rep.section(r3, ctx, rep, prog)
     rep.section(r4, ctx, rep)
     rep.section(w, ctx, rep, prog)
@@ -176,6 +177,36 @@ def r2_never_constructed(ctx, rep, prog):
     if seen_ok < 10:
         raise core.Incomplete(f'R2: only {seen_ok} constructions of SpecialRustType variants seen (positive control: the supported scalars are constructed in the type parser)')
     rep.ok('R2', 'never-constructed:64-bit-variants', f'no hand-written body constructs SpecialRustType::{{U64,I64,USize,ISize}} ({seen_ok} constructions of other variants seen)')
+
+
+def r6_const_value(ctx, rep, prog):
+    """R6 (non-integer-literal constants are rejected): the value of a constant is decided on the initialiser expression
+    *itself*: parse_const_expr dispatches on its argument, accepts only literal / negation / parenthesis shapes, sends every
+    other expression shape to an Err, and does not search the expression tree for a literal (no syn::visit traversal) —
+    `1 + 2`, `4 * KB`, `OTHER` must not be reduced to the first literal found inside."""
+    f = ctx.fn('parse_const_expr', file='parser.rs')
+    site = {'file': f['file'], 'line': f['line']}
+    ks = [k for k in prog.find('parse_const_expr', crate='typeshare_core') if prog.bodies[k]['kind'] == 'fn']
+    if len(ks) != 1:
+        raise core.Incomplete('parse_const_expr not found in MIR')
+    region = prog.region(ks)
+    walkers = sorted({c['callee'] for k in region for c in prog.bodies[k]['calls'] if re.search(r'syn::visit(_mut)?::|syn::gen::visit', c['callee'])} |
+                     {prog.bodies[k]['id'] for k in region if 'syn::visit::Visit' in (prog.bodies[k].get('trait_item') or '') or ' as syn::visit::Visit' in prog.bodies[k]['id']})
+    rep.check(not walkers, 'R6', 'const-value:no-tree-search', 'the initialiser is not searched for a literal', f"parse_const_expr walks the initialiser expression ({walkers[:2]}): a constant such as `1 + 2`, `4 * 1024` or `-5` is reduced to the first literal inside it and emitted with a wrong value instead of being rejected", site)
+    param = f['params'][0]['name']
+    ms = [m for m in f['matches'] if isinstance(vt.unvar(m.get('scrut')), dict) and vt.unvar(m['scrut']).get('k') == 'atom' and vt.unvar(m['scrut']).get('root') == param]
+    if not ms:
+        if walkers:
+            return
+        raise core.Incomplete('parse_const_expr: dispatch on the initialiser expression not found')
+    allowed = ('Expr::Lit', 'Expr::Unary', 'Expr::Paren', 'Expr::Group')
+    wild = [a for a in ms[0]['arms'] if a['variants'] == ['_']]
+    rep.check(bool(wild) and all(re.match(r'\s*(return\s+)?Err\b', a['body'].strip('{} ')) for a in wild), 'R6', 'const-value:other-shapes-rejected', 'every other expression shape is an error', 'parse_const_expr: expression shapes without an arm of their own are not rejected', site)
+    for a in ms[0]['arms']:
+        if a['variants'] == ['_'] or re.match(r'\s*(return\s+)?Err\b', a['body'].strip('{} ')):
+            continue
+        bad = [v for v in a['variants'] if not v.startswith(allowed)]
+        rep.check(not bad, 'R6', f"const-value:accepting-arm:{'|'.join(v.split('(')[0] for v in a['variants'])}", 'literal / negation / parenthesis', f"parse_const_expr accepts the expression shape(s) {bad}: only an integer literal (optionally negated or parenthesised) is a supported constant value", {'file': f['file'], 'line': a['line']})
 
 
 def agg(body, adt_suffix, variant):
